@@ -123,6 +123,15 @@ let uhostunix toks =
        | UOk r -> if r then "unix=1" else "unix=0")
   | _ -> failwith "uhostunix args"
 
+(* uunix <pmax> <bytes> : coap_address_set_unix_domain *)
+let uunix toks =
+  match toks with
+  | [pm; b] ->
+      (match uri_unix_path (zi pm) (bytes_of_tok b) with
+       | UOob -> "OOB"
+       | UOk p -> Printf.sprintf "max=%s rc=1 path=%s" pm (full_hex p))
+  | _ -> failwith "uunix args"
+
 (* ugetproxy <bytes> : coap_get_uri_path with a Proxy-Uri option = path of coap_split_proxy_uri *)
 let ugetproxy toks =
   match toks with
@@ -170,5 +179,5 @@ let spec_norm toks = show_optl (uri_norm (List.map bytes_of_tok toks))
 
 let () =
   register "upath" upath; register "uquery" uquery; register "upol" upol; register "uqol" uqol;
-  register "ugetp" (uget false); register "ugetq" (uget true); register "uspl" uspl; register "uinto" uinto; register "unew" unew; register "uhostunix" uhostunix; register "ugetproxy" ugetproxy;
+  register "ugetp" (uget false); register "ugetq" (uget true); register "uspl" uspl; register "uinto" uinto; register "unew" unew; register "uhostunix" uhostunix; register "uunix" uunix; register "ugetproxy" ugetproxy;
   register "spec_path" spec_path; register "spec_query" spec_query; register "spec_norm" spec_norm; register "spec_pq" spec_pq
